@@ -334,6 +334,15 @@ def strip_imm(t):
     return t
 
 
+SIZEOF_ORACLE = {
+    "Char": ["Ok(1)"],
+    "Short": ["Ok(2)"],
+    "CharPtr": ["ifv.var_const{Ok(v.size)}else{Ok(2)}"],
+    "ShortPtr": ["Ok((v.size*2))", "Ok(v.size*2)"],
+    "CharPtrPtr": ["Ok((v.size*2))", "Ok(v.size*2)"],
+}
+
+
 @rule("T-SIZEOF", floor=6,
       text="the constant calculator's sizeof (parse_sizeof) and the generator's sizeof (generate_sizeof) agree case by case: the same type-name tests in the same order with the same sizes, and the same size per variable type")
 def t_sizeof(facts, res, tier):
@@ -377,3 +386,13 @@ def t_sizeof(facts, res, tier):
         res.inst(key, True, {"parse_sizeof": ta.get(vt), "generate_sizeof": tb.get(vt)})
         if vt not in ta or ta.get(vt) != tb.get(vt):
             res.fail(key, facts.where(a), "sizeof of a %s variable: calculator gives `%s`, generator gives `%s`" % (vt, ta.get(vt), tb.get(vt)))
+            continue
+        # and both agree with what the object occupies (reference: 1 byte per char, 2 per short / pointer;
+        # an array - a const pointer with `size` elements - occupies size elements, a pointer variable 2 bytes)
+        want = SIZEOF_ORACLE.get(vt)
+        got = re.sub(r"\s+", "", ta.get(vt) or "")
+        got = got.replace("asi32", "")
+        while got.startswith("{") and got.endswith("}"):
+            got = got[1:-1]
+        if want is not None and not any(re.sub(r"\s+", "", w) == got for w in want):
+            res.fail(key + ":value", facts.where(a), "sizeof of a %s variable is computed as `%s`; the object's size in bytes is %s" % (vt, ta.get(vt), want[0]))
